@@ -282,22 +282,22 @@ func (c *fmtCtx) splice(s string) value {
 	if len(c.syms) == 0 || !strings.Contains(s, "\x00\x01S") {
 		return s
 	}
-	var out []value
+	var acc value = ""
 	for len(s) > 0 {
 		k := strings.Index(s, "\x00\x01S")
 		if k < 0 {
-			out = append(out, c.i.strBytes(s)...)
+			acc = c.i.strConcat(acc, s)
 			break
 		}
-		out = append(out, c.i.strBytes(s[:k])...)
+		acc = c.i.strConcat(acc, s[:k])
 		rest := s[k+3:]
 		e := strings.Index(rest, "\x01\x00")
 		var idx int
 		fmt.Sscanf(rest[:e], "%d", &idx)
-		out = append(out, c.i.strBytes(c.syms[idx])...)
+		acc = c.i.strConcat(acc, c.syms[idx])
 		s = rest[e+2:]
 	}
-	return mkStr(out)
+	return acc
 }
 
 func (c *fmtCtx) args(vs []value) []interface{} {
